@@ -170,3 +170,38 @@ def buildRaw (gl : GlyphList) (db : EncDB) (fm : Metrics) (raw : RawFontDict) : 
   | .error e => .error e
 
 end PdfVerif.SimpleFont
+
+namespace PdfVerif.SimpleFont
+
+/-! ### `PDFResourceManager.get_font`: construction and caching -/
+
+/-- `PDFResourceManager`: the `caching` flag and `_cached_fonts` (object id -> font). -/
+structure RsrcMgr where
+  caching : Bool
+  cache : List (Nat × Font)
+
+def cacheLookup (c : List (Nat × Font)) (objid : Nat) : Option Font :=
+  match c.find? (fun e => e.1 == objid) with
+  | some e => some e.2
+  | none => none
+
+/-- `get_font(objid, spec)`: a cached font when `objid` is truthy and known; otherwise construct (an
+exception escapes and nothing is cached) and remember it when `objid` is truthy and caching is on. -/
+def getFont (mk : RawFontDict → Except String Font) (m : RsrcMgr) (objid : Nat) (spec : RawFontDict) :
+    Except String Font × RsrcMgr :=
+  match (if objid != 0 then cacheLookup m.cache objid else none) with
+  | some f => (.ok f, m)
+  | none =>
+    match mk spec with
+    | .ok f => (.ok f, if objid != 0 && m.caching then { m with cache := (objid, f) :: m.cache } else m)
+    | .error e => (.error e, m)
+
+/-- A document's pages asking for fonts one after the other (the object id determines the dictionary). -/
+def getFonts (mk : RawFontDict → Except String Font) (doc : Nat → RawFontDict) :
+    RsrcMgr → List Nat → List (Except String Font)
+  | _, [] => []
+  | m, i :: rest =>
+    let r := getFont mk m i (doc i)
+    r.1 :: getFonts mk doc r.2 rest
+
+end PdfVerif.SimpleFont
